@@ -1,0 +1,44 @@
+//go:build verif
+
+package shell_operator
+
+import (
+	"context"
+
+	"github.com/deckhouse/deckhouse/pkg/log"
+
+	"github.com/flant/shell-operator/pkg/hook/types"
+	metricstorage "github.com/flant/shell-operator/pkg/metric_storage"
+	"github.com/flant/shell-operator/pkg/webhook/conversion"
+)
+
+// VerifC15NewOperator assembles a ShellOperator over a hooks directory the way
+// assembleShellOperator does (setupHookManagers, initHookManager, the body of
+// initConversionWebhookManager), leaving out what needs a cluster or a listener: no Kubernetes
+// client, no certificates, no webhook server. The returned handler is the real
+// conversion.WebhookHandler (chi router) wired to the real op.conversionEventHandler.
+func VerifC15NewOperator(hooksDir, tempDir string) (*ShellOperator, *conversion.WebhookHandler, error) {
+	op := NewShellOperator(context.Background(), WithLogger(log.NewNop()))
+	op.MetricStorage = metricstorage.NewMetricStorage(op.ctx, "verif_", true, log.NewNop())
+	op.HookMetricStorage = metricstorage.NewMetricStorage(op.ctx, "verif_", true, log.NewNop())
+	op.SetupEventManagers()
+	op.setupHookManagers(hooksDir, tempDir)
+	if err := op.initHookManager(); err != nil {
+		return nil, nil, err
+	}
+
+	op.ConversionWebhookManager.EventHandlerFn = op.conversionEventHandler
+	hookNames, _ := op.HookManager.GetHooksInOrder(types.KubernetesConversion)
+	for _, hookName := range hookNames {
+		h := op.HookManager.GetHook(hookName)
+		h.HookController.EnableConversionBindings()
+	}
+
+	handler := conversion.NewWebhookHandler()
+	handler.Manager = op.ConversionWebhookManager
+	op.ConversionWebhookManager.Handler = handler
+	return op, handler, nil
+}
+
+// VerifC15Stop cancels the operator context.
+func (op *ShellOperator) VerifC15Stop() { op.Stop() }
